@@ -207,3 +207,16 @@ Print Assumptions C09_src_pin_parfile_copy_worker.
 Print Assumptions C09_src_pin_parblock_dispatch_worker.
 Print Assumptions C09_src_pin_operations_drop.
 Print Assumptions C09_src_pin_operations_finalise_copy.
+
+(* ---- further functions on this property's path, pinned token for token as validated (dependency review after rounds 5 and 6:
+   each missed change had edited a pinned function that this property did not cite) ---- *)
+From XcpPins Require Import Pin_operations_copy_file Pin_parblock_queue_file_blocks Pin_common_is_same_file.
+Theorem C09_src_pin_operations_copy_file : pin_unchanged name_operations_copy_file.
+Proof. exact pin_operations_copy_file. Qed.
+Theorem C09_src_pin_parblock_queue_file_blocks : pin_unchanged name_parblock_queue_file_blocks.
+Proof. exact pin_parblock_queue_file_blocks. Qed.
+Theorem C09_src_pin_common_is_same_file : pin_unchanged name_common_is_same_file.
+Proof. exact pin_common_is_same_file. Qed.
+Print Assumptions C09_src_pin_operations_copy_file.
+Print Assumptions C09_src_pin_parblock_queue_file_blocks.
+Print Assumptions C09_src_pin_common_is_same_file.
